@@ -152,8 +152,60 @@ def later_generations(arrivals, cancels, evict_at, expiration, results, boom):
     return None
 
 
+def reinserted_key(method, limit, expiration, gap):
+    """Two keys: the entry of key "a" is evicted by "b" and made again later, and the *old* entry's expiry instant passes while
+    the new invocation for "a" is in flight.  Callers of "a" arriving then share that invocation (its own entry is unexpired)."""
+    async def main(loop):
+        C.monotonic = loop.time
+        started = []
+
+        async def body(x):
+            started.append((x, loop.time()))
+            await asyncio.sleep(5.0 if len(started) == 3 else 0.0)
+            return (x, len(started) if False else [s for s in started if s[0] == x][-1][1])
+
+        if method:
+            class H:
+                @cache(limit=limit, expiration=expiration)
+                async def m(self, x):
+                    return await body(x)
+            fn = H().m
+        else:
+            @cache(limit=limit, expiration=expiration)
+            async def fn(x):
+                return await body(x)
+        res = {}
+
+        async def caller(name, at, key):
+            await asyncio.sleep(at)
+            res[name] = await fn(key)
+        # A: a at 0 (entry would expire at `expiration`); B: b at gap (evicts a when limit == 1); C: a again at 2*gap, in flight
+        # for 5s; D: a at `expiration` + 1 (the first entry's deadline is over, C's entry is fresh and its call still running)
+        await asyncio.gather(caller("A", 0, "a"), caller("B", gap, "b"), caller("C", 2 * gap, "a"),
+                             caller("D", expiration + 1.0, "a"))
+        return started, res
+    try:
+        started, res = run(main, C)
+    except Hang as h:
+        return f"re-inserted key: {h}"
+    n_a = len([s for s in started if s[0] == "a"])
+    want_calls = 2 if limit == 1 else 2 if False else (1 if expiration + 1.0 <= expiration else 2)
+    if limit == 1:
+        if n_a != 2 or res["C"] != res["D"]:
+            return (f"limit=1 expiration={expiration}: the function ran {n_a}x for key 'a' (expected 2: A's call and the one C and D share); "
+                    f"C got {res['C']}, D got {res['D']} - a caller arriving while the invocation for its key is in flight, the "
+                    f"entry unexpired and most recently used, did not join it")
+    return None
+
+
 def search():
     n = 0
+    for method in (False, True):
+        for limit, expiration, gap in ((1, 10.0, 4.0), (1, 8.0, 3.0), (1, 6.0, 2.5)):
+            n += 1
+            p = reinserted_key(method, limit, expiration, gap)
+            if p:
+                return n, dict(method=method, problem=p)
     for method in (False, True):
         for outcome in ("value", "exc"):
             for arrivals in ([0, 0], [0, 0.5], [0, 0.5, 0.9], [0, 0.25, 0.5, 0.75], [0, 0.5, 1.2], [0, 0.8, 1.1, 1.6]):
